@@ -1,5 +1,6 @@
 import Mainchain.Lemmas.SortKV
 import Mainchain.Lemmas.PaginateRev
+import Mainchain.Lemmas.PaginateMax
 import Mainchain.Lemmas.EntBook
 import Mainchain.Model.Script
 import Mainchain.Props.C18
@@ -51,6 +52,18 @@ theorem c20_pages_partition_by_key_reverse (kvs : List (Bytes × α)) (hd : (kvs
   rw [hrev]
   exact (List.reverse_perm _).trans ((hperm.filter _).map _)
 
+/-- **…and at the largest page limit, `query.MaxLimit` = 2^64 − 1**, where the SDK's `end + 1` wraps (see the instance
+below): the first page may be cut short after one entry, but following `next_key` still returns every matching entry exactly
+once — so the walk is complete and duplicate-free for *every* page limit `1 ≤ L ≤ 2^64 − 1`. -/
+theorem c20_pages_partition_by_key_max_limit (kvs : List (Bytes × α)) (hd : (kvs.map (·.1)).Nodup) (hne : ∀ e ∈ kvs, e.1 ≠ [])
+    (h : Bytes → α → Bool) (hlen : kvs.length + 1 ≤ maxLimit) :
+    ∃ pages, walkKeys (sortKV kvs) (fun k v => some (h k v)) maxLimit ((sortKV kvs).length + 2) [] = some pages ∧
+      pages = (hitsOf h (sortKV kvs)).map (·.2) ∧
+      pages.Perm ((kvs.filter (fun e => h e.1 e.2)).map (·.2)) := by
+  obtain ⟨hsec, hperm⟩ := sortKV_section kvs hd hne
+  have hl : (sortKV kvs).length + 1 ≤ maxLimit := by rw [hperm.length_eq]; exact hlen
+  exact ⟨_, walkKeys_complete_max (sortKV kvs) h hsec hl, rfl, (hperm.filter _).map _⟩
+
 /-- **Paging by offset.**  The page at offset `o` with limit `L` is exactly the matching entries number
 `o … o+L-1` in key order, so the pages at offsets `0, L, 2L, …` partition the matching entries. -/
 theorem c20_pages_partition_by_offset (kvs : List (Bytes × α)) (h : Bytes → α → Bool) (o L : Nat) (hL : 1 ≤ L)
@@ -80,6 +93,16 @@ example :
     filtered [([1], "a"), ([2], "b")] { key := [1], limit := 18446744073709551615 } (fun k _ => some (decide (k = [2]))) =
       some { items := ["b"], next := [], total := 0 } := by
   constructor <;> rfl
+
+/-- **Known finding (SDK pagination, reached through every list query): a *reverse* walk at `limit = 2^64 − 1` can fail.**
+When the top entry of the section does not match the filter, the wrapped `end + 1` makes the first page return nothing and the
+key of the top entry as `next_key`; a reverse request carrying the key of the top entry makes the SDK read `Key()` of an
+exhausted iterator (`key_page_rev_top`): the query answers with an error and the matching entries below are never delivered.
+Negation witness (replayed on the real application by `corpus/known/c20-reverse-walk-at-the-maximum-page-limit.script`);
+forward walks are complete at every limit (`c20_pages_partition_by_key_max_limit`), reverse walks for `L < 2^64 − 1`. -/
+theorem c20_reverse_walk_at_max_limit_fails :
+    walkKeysRev [([1], "a"), ([2], "b")] (fun k _ => some (decide (k = [1]))) maxLimit 4 [] = none := by
+  rfl
 
 /-- a request with both a key and a non-zero offset is refused -/
 theorem c20_key_and_offset_rejected (kvs : List (Bytes × α)) (req : Req) (hit : Bytes → α → Option Bool)
